@@ -72,7 +72,8 @@ TAGS = {
 }
 CORR = (1, 2, 3, 5, 6)
 # oracle tag -> finding id that may excuse it (only when listed open) ; guard tag that must be present
-ORACLE_FINDING = {13: ('C09-COV-ADD-NOT-NEUTRAL', 201), 23: ('C09-IIV-EXP-ADD-NOT-NEUTRAL', 202),
+ORACLE_FINDING = {11: ('C09-COV-NESTED-SAME-SYMBOL', 204), 12: ('C09-COV-NESTED-SAME-SYMBOL', 204),
+                  13: ('C09-COV-ADD-NOT-NEUTRAL', 201), 23: ('C09-IIV-EXP-ADD-NOT-NEUTRAL', 202),
                   24: ('C09-IIV-LOGIT-NOT-NEUTRAL', 202), 25: ('C09-IIV-RELOG-NOT-NEUTRAL', 202),
                   27: ('C09-IIV-RELOG-REMOVE', 202), 34: ('C09-POWER-ON-RUV-EXTRA-FACTOR', None), 26: ('C09-IIV-LOGIT-REMOVE-QUOTIENT', None), 41: ('C09-TRANSIT-REDUCE-TO-ONE', None),
                   45: ('C09-TRANSIT-REDUCE-TO-ONE', None),
@@ -450,6 +451,9 @@ def build_err(spec, rng):
     im = impl()
     model = load_model(spec)
     fname, kwargs, kterm = ERR_SETTERS[spec['setter']]
+    if (spec['setter'] == 'comb' and 'ETA_RV1' in model.random_variables.names
+            and 'time_varying' not in model.parameters.names):
+        kterm = '(EComb CombIivRuv)'     # the setter keeps the IIV on RUV (its documented third form)
     after = im.fn(fname)(model, **kwargs)
     if after is model or after.statements == model.statements:
         return None, {'skip': 'no-op (error model already of this kind)'}
@@ -1042,7 +1046,11 @@ def classify(ctx, spec, tags):
                 if f and guard is None:
                     # findings without a guard tag are only excused on inputs matching the stored pattern
                     view = dict(spec, n_last=(spec.get('n') or [None])[-1])
-                    f = f if all(view.get(k) == v for k, v in f.get('match', f['witness']).items()) else None
+                    pat = dict(f.get('match', f['witness']))
+                    has = pat.pop('prep_has', None)
+                    ok = all(view.get(k) == v for k, v in pat.items())
+                    ok = ok and (has is None or any(op and op[0] == has for op in spec.get('prep', [])))
+                    f = f if ok else None
                 if f:
                     fid = cand
                     break
